@@ -138,8 +138,8 @@ def find_region(finfo: FuncInfo, region):
                 if isinstance(seq, list):
                     for j, stt in enumerate(seq):
                         if isinstance(stt, ast.stmt) and ast.unparse(stt).startswith(start):
-                            hits.append(seq[j:j + count])
-        if len(hits) != 1 or len(hits[0]) != count:
+                            hits.append(seq[j:j + count] if count else seq[j:])  # count 0: to the end of the enclosing block
+        if len(hits) != 1 or (count and len(hits[0]) != count):
             raise KeyError(f"block starting with {start!r} found {len(hits)} times in {finfo.key} (or shorter than {count} statements)")
         return hits[0]
     raise KeyError(region)
